@@ -604,6 +604,15 @@ func (t *tr) ifStmt(x *ast.IfStmt, rest []ast.Stmt, indent string) string {
 				}
 			}
 		}
+		// general form: if v := e; cond { … } — the binding first (its scope is wider in the translation, which is
+		// immaterial for straight-line code that does not reuse the name), then the plain if
+		if ok && as.Tok == token.DEFINE && len(as.Lhs) == 1 && len(as.Rhs) == 1 {
+			if _, isID := as.Lhs[0].(*ast.Ident); isID {
+				plain := *x
+				plain.Init = nil
+				return t.stmts(append([]ast.Stmt{as, &plain}, rest...), indent)
+			}
+		}
 		return t.unsupported("if with init", x)
 	}
 	var binds [][2]string
@@ -632,11 +641,14 @@ func (t *tr) snapshotTypes() map[string]string {
 }
 
 func (t *tr) switchStmt(x *ast.SwitchStmt, rest []ast.Stmt, indent string) string {
-	if x.Init != nil || x.Tag == nil {
+	if x.Init != nil {
 		return t.unsupported("switch form", x)
 	}
 	var binds [][2]string
-	tag := t.expr(x.Tag, &binds)
+	tag := ""
+	if x.Tag != nil {
+		tag = t.expr(x.Tag, &binds)
+	}
 	var def []ast.Stmt
 	hasDef := false
 	type cl struct {
@@ -659,7 +671,11 @@ func (t *tr) switchStmt(x *ast.SwitchStmt, rest []ast.Stmt, indent string) strin
 		var conds []string
 		for _, e := range cc.List {
 			var b2 [][2]string
-			conds = append(conds, "("+tag+" == "+t.expr(e, &b2)+")")
+			if x.Tag == nil {
+				conds = append(conds, "("+t.expr(e, &b2)+")") // tagless switch: the case expressions are the conditions
+			} else {
+				conds = append(conds, "("+tag+" == "+t.expr(e, &b2)+")")
+			}
 			if len(b2) > 0 {
 				return t.unsupported("partial case expression", e)
 			}
